@@ -1002,3 +1002,79 @@ Proof.
   - unfold write_expr. apply write_expr_with_np; try assumption.
     apply Forall_forall. intros o _. apply write_op_np; assumption.
 Qed.
+
+(* the other direction: a branch whose target index is past the end of the expression panics *)
+Theorem bad_target_panics dbg e uo refs offsets pos t :
+  N.of_nat (length offsets) <= t ->
+  write_op dbg e uo refs offsets pos (WoSkip t) = Panic /\ write_op dbg e uo refs offsets pos (WoBranch t) = Panic.
+Proof.
+  intros Ht. cbn [write_op]. unfold only, branch_operand.
+  assert (Hn : nth_N offsets t = None).
+  { rewrite nth_N_nth_error. apply nth_error_None. lia. }
+  rewrite Hn. split; reflexivity.
+Qed.
+
+(* a sufficient, checkable condition for lookups_ok *)
+Lemma lookups_ok_table dbg uo ens :
+  match uo with
+  | None => True
+  | Some u => forall en, In en ens -> exists off, nth_N (uo_entries u) en = Some off /\ (off = 0 \/ uo_unit u <= off)
+  end -> lookups_ok dbg uo ens.
+Proof.
+  intros H en Hin. rewrite entry_offset_cases. destruct uo as [u|]; [|discriminate].
+  destruct (H en Hin) as [off [-> Hoff]]. destruct (off =? 0) eqn:E; [discriminate|].
+  unfold chk_sub. destruct (uo_unit u <=? off) eqn:E2; [discriminate|]. lia.
+Qed.
+
+(* ---- sizes do not change when more entries of the unit get their offsets (calculate_offsets sees a prefix of
+        the table Operation::write sees) ---- *)
+Definition extends (u1 u2 : uoffs) : Prop :=
+  uo_unit u1 = uo_unit u2 /\
+  forall en off, nth_N (uo_entries u1) en = Some off -> off <> 0 -> nth_N (uo_entries u2) en = Some off.
+
+Lemma base_size_mono dbg u1 u2 en n :
+  extends u1 u2 -> base_size dbg (Some u1) en = Ok n -> base_size dbg (Some u2) en = Ok n.
+Proof.
+  intros [Hu He] H. unfold base_size, unit_offset, debug_info_offset in *.
+  destruct (nth_N (uo_entries u1) en) as [off|] eqn:E1; [|discriminate].
+  destruct (off =? 0) eqn:E0; [discriminate|].
+  rewrite (He en off E1) by lia. rewrite E0. rewrite <- Hu. exact H.
+Qed.
+
+Lemma sum_sizes_mono dbg (f g : wop -> res N) : forall ex acc n,
+  Forall (fun o => forall m, f o = Ok m -> g o = Ok m) ex ->
+  sum_sizes dbg f acc ex = Ok n -> sum_sizes dbg g acc ex = Ok n.
+Proof.
+  induction ex as [|o r IH]; intros acc n HF H; [exact H|].
+  rewrite sum_sizes_cons in *. inversion HF as [|? ? Ho Hr]; subst.
+  apply bind_ok_inv in H. destruct H as [s [Hs H]]. rewrite (Ho _ Hs). cbn [bind].
+  apply bind_ok_inv in H. destruct H as [a [Ha H]]. rewrite Ha. cbn [bind]. eapply IH; eauto.
+Qed.
+
+Theorem size_op_mono dbg e u1 u2 : extends u1 u2 -> forall o n,
+  size_op dbg e (Some u1) o = Ok n -> size_op dbg e (Some u2) o = Ok n.
+Proof.
+  intros Hx. induction o as [o Hleaf|ex IH] using wop_nested_ind; intros n H.
+  - destruct o; try (exfalso; eapply Hleaf; reflexivity); cbn [size_op] in *; try exact H.
+    all: try match type of H with context [match ?b with Some _ => _ | None => _ end] => destruct b; [|exact H] end.
+    all: apply bind_ok_inv in H; destruct H as [m [Hm H]].
+    all: repeat match type of Hm with
+         | bind (base_size _ _ _) _ = Ok _ =>
+             let b := fresh "b" in let Hb := fresh "Hb" in
+             apply bind_ok_inv in Hm; destruct Hm as [b [Hb Hm]];
+             rewrite (base_size_mono _ _ _ _ _ Hx Hb); cbn [bind]
+         | base_size _ _ _ = Ok _ => rewrite (base_size_mono _ _ _ _ _ Hx Hm); cbn [bind]
+         end.
+    all: try (rewrite Hm; cbn [bind]); exact H.
+  - cbn [size_op] in *. apply bind_ok_inv in H. destruct H as [m [Hm H]].
+    apply bind_ok_inv in Hm. destruct Hm as [len [Hlen Hm]].
+    rewrite (sum_sizes_mono dbg (size_op dbg e (Some u1)) (size_op dbg e (Some u2)) ex 0 len IH Hlen).
+    cbn [bind]. rewrite Hm. cbn [bind]. exact H.
+Qed.
+
+Theorem size_expr_mono dbg e u1 u2 ex n :
+  extends u1 u2 -> size_expr dbg e (Some u1) ex = Ok n -> size_expr dbg e (Some u2) ex = Ok n.
+Proof.
+  intros Hx H. unfold size_expr in *. eapply sum_sizes_mono; [|exact H].
+  apply Forall_forall. intros o _ m. apply size_op_mono. exact Hx.
+Qed.
